@@ -4,6 +4,7 @@ CONSTANTS
   MaxH = 2
   MaxCh = 1
   Dev_HandleReuse = FALSE
+  Dev_SplitNotify = FALSE
   Dev_KeepOld = TRUE
 SPECIFICATION Spec
 CONSTRAINT Bound
